@@ -108,7 +108,7 @@ func ruleK6(c *Ctx) *RuleResult {
 			nb++
 			tracks := call.Call.Args[1]
 			key := FuncName(fn) + "|track-bound"
-			conds := ifsOn(fn, func(v ssa.Value) bool {
+			conds := ifsOnV(fn, func(v ssa.Value) bool {
 				bo, ok := v.(*ssa.BinOp)
 				if !ok || bo.Op != token.GTR {
 					return false
